@@ -17,6 +17,8 @@ claimed = {
          "CSV field semantics are encoding/csv's (assumed); linesOK recursion axioms are trusted spec; parseComplete is defined as Parse's observable completeness (determinism: C04)"),
  "C16": ("proof", "The recursion measure (maxRecursion + 9 - lvl, rank) of the JSON scanner SCC is input-independent; every recursive call is shown to decrease it and stay non-negative; the pool type invariant maxRecursion == 4096 is established by the pool constructor and no other instruction stores to it (whole-program scan); every caller of the scanner establishes 1 <= cap <= 65536.", "5 C16",
          "frames of the assumed libraries are iterative; the exact cap value and off-by-one variants of the guard are deliberately not pinned"),
+ "C17": ("proof", "For each of the 96 non-text children of the root node, enumerated from the concretely executed package initialiser, the real detector is executed twice over one shared byte memory with len1 <= len2 (prefix by construction) and arbitrary limits; D(raw1) ==> D(raw2) is discharged per detector (font/ttf: ==> Ttf or MsAccess, its hand-over). Loops over signature tables are unrolled exactly; helper functions enter through their contracts (pure functions as uninterpreted functions).", "5 C17",
+         "tree-level conclusion (first accepting child at the larger limit is a non-text child) uses the first-match contract of match (C03) and that text is the last root child; detectors installed by Extend are arbitrary predicates and are outside"),
  "C18": ("proof", "tarChksum is proved equal to prefix-sum spec functions, tarParseOctal to the octal value of a six-digit field; Tar is sandwiched: accepted => recorded checksum equals the unsigned or signed sum; header in the writers' format => accepted. Corruption sensitivity is a lemma proved from two induction lemmas (point update, difference multiple of 256).", "5 C18",
          "ustarHeader is a trusted format predicate (what archive/tar, GNU tar, bsdtar emit); names ending a path component 'gpkg-1' are excluded from it, as the implementation deliberately rejects Gentoo gpkg"),
 }
